@@ -142,7 +142,7 @@ CHECKS = {
             'and adaptive grids with PSD recording) - every run must terminate at exactly the requested time with strictly increasing '
             'time stamps, equal-length finite histories, non-negative PSDs at every step, fractions/compositions in range. faults: for '
             'each backend method every placement of 0 and 1 (thorough: also 2) documented "no result" answers among the first K=12 '
-            '(thorough 40; pairs among 16) interceptable calls, on binary and ternary, both iterators, empty and preloaded PSD.',
+            '(thorough 40; pairs among 12) interceptable calls, on binary and ternary, both iterators, empty and preloaded PSD.',
             'Analytic backends; a fault is None for getGrowthAndInterfacialComposition, the previous/None impingement factor, (None, None) '
             'for getDrivingForce and the -1 marker for getInterfacialComposition; horizon 40000 steps (temperature jumps 20000, fault runs 12000) = non-termination; terminating runs of the products need at most 9533. '
             'KNOWN FINDING: ternary/RK4/temperature jump stays at the minimum step (recorded).',
